@@ -29,7 +29,7 @@ func (cl *vClient) requestStream(path string, rd io.Reader, size int) *vCall {
 // caller, the read loop keeps going, and when the connection closes both loops
 // exit.
 //
-//verif:harness prop=C12,C02 unwind=300 timeout=900
+//verif:harness prop=C12,C02,C18 unwind=300 timeout=900
 func VerifH_C12_early() {
 	streamed := vBool()
 	how := vRange(0, 2)
@@ -60,6 +60,18 @@ func VerifH_C12_early() {
 	}
 	if done && how == 2 {
 		vAssert(err != nil, "C12.early.reset-is-an-error")
+	}
+	// the server is told that the rest of the body will not come: without
+	// END_STREAM or RST_STREAM from the client the stream stays open on its
+	// side and keeps counting against SETTINGS_MAX_CONCURRENT_STREAMS
+	closed := false
+	for _, f := range cl.sent() {
+		if f.stream == 1 && (f.typ == 0x3 || (f.typ == 0x0 && f.flags&0x1 != 0)) {
+			closed = true
+		}
+	}
+	if how < 2 {
+		vAssert(closed, "C12.early.stream-is-closed-towards-the-server")
 	}
 	// the connection is still good for another request
 	next := cl.request("GET", "/next", nil)
